@@ -67,6 +67,20 @@ func isZeroConst(v ssa.Value) bool {
 	return ok && k == 0
 }
 
+// wholeFieldZero: is `in` a store of the zero value to the whole array field recv.<field>?
+func wholeFieldZero(in ssa.Instruction, recv ssa.Value, field string) bool {
+	st, ok := in.(*ssa.Store)
+	if !ok {
+		return false
+	}
+	root, sel := accessPath(st.Addr)
+	if root != recv || sel != "."+field {
+		return false
+	}
+	c, ok := st.Val.(*ssa.Const)
+	return ok && c.Value == nil
+}
+
 func ruleR03_1(p *Program, r *Report) {
 	r.Expect("R03.1", 9)
 	nb := 0
@@ -88,10 +102,16 @@ func ruleR03_1(p *Program, r *Report) {
 			}
 			recv := fn.Params[0]
 			zeroShort := func(in ssa.Instruction) bool {
+				if wholeFieldZero(in, recv, short) {
+					return true
+				}
 				v, ok := elemStoreTo(in, recv, short)
 				return ok && isZeroConst(v)
 			}
 			zeroLong := func(in ssa.Instruction) bool {
+				if wholeFieldZero(in, recv, long) {
+					return true
+				}
 				v, ok := elemStoreTo(in, recv, long)
 				return ok && isZeroConst(v)
 			}
@@ -196,6 +216,11 @@ func clearedRangeMatches(fn *ssa.Function, recv ssa.Value, short string, first s
 	seenLoop := false
 	for _, b := range fn.Blocks {
 		for _, in := range b.Instrs {
+			if wholeFieldZero(in, recv, short) {
+				if f, _, _ := (PathQuery{Start: in, Target: func(x ssa.Instruction) bool { return x == ssa.Instruction(first) }}).Find(fn); f {
+					return ""
+				}
+			}
 			v, isSt := elemStoreTo(in, recv, short)
 			if !isSt || !isZeroConst(v) {
 				continue
@@ -233,6 +258,9 @@ func clearedRangeMatches(fn *ssa.Function, recv ssa.Value, short string, first s
 						}
 						if k, ok := constInt(bo.Y); ok && k > 0 {
 							okRange = true // fixed-size array range
+						}
+						if inits[bo.Y] || inits[stripConv(bo.Y)] {
+							okRange = true // for i := 0; i < copySize; i++
 						}
 					}
 				}
@@ -283,6 +311,11 @@ func derivesFrom(v, from ssa.Value) bool {
 func wholeTableCleared(fn *ssa.Function, recv ssa.Value, short string, ret ssa.Instruction) bool {
 	for _, b := range fn.Blocks {
 		for _, in := range b.Instrs {
+			if wholeFieldZero(in, recv, short) {
+				if f, _, _ := (PathQuery{Start: in, Target: func(x ssa.Instruction) bool { return x == ret }}).Find(fn); f {
+					return true
+				}
+			}
 			v, isSt := elemStoreTo(in, recv, short)
 			if !isSt || !isZeroConst(v) {
 				continue
